@@ -209,3 +209,39 @@ package cache
 //@   assert at call (*internal/cache.Cache).CompareAndSwap#1: inst(now) - inst(current.retryAfter) >= c.maxTTL ==> as(arg3, *failureEntry).streak == 1
 //@   assert at call (*internal/cache.Cache).CompareAndSwap#1: as(arg3, *failureEntry).kind == current.kind && as(arg3, *failureEntry).question == current.question && as(arg3, *failureEntry).zone == current.zone
 //@   assert at return#2: result.Streak == current.streak && result.RetryAfter == current.retryAfter && inst(now) < inst(current.retryAfter)
+//@
+//@ # ---- C04 / C01 / C06: a decoded-path hit is served only while lifetime remains; every stamped TTL is the
+//@ # whole seconds of the remaining lifetime (never more); the reply takes the request's ID and never claims
+//@ # authority; AD is cleared for a CD request
+//@ func (*CacheEntry).ToMsg
+//@   requires entryWF(e) && e.ttl <= 2000000000000000 && req != nil
+//@   note the TTL assertions assume the clock did not run backwards since the entry was stored (inst(e.stored) <= inst(now))
+//@   assert at store dns.RR_Header.Ttl#1: remSpec(e, now) > 0 && (inst(e.stored) <= inst(now) ==> int(value) == remSpec(e, now) / 1000000000)
+//@   assert at store dns.RR_Header.Ttl#2: inst(e.stored) <= inst(now) ==> int(value) == remSpec(e, now) / 1000000000
+//@   assert at store dns.RR_Header.Ttl#3: inst(e.stored) <= inst(now) ==> int(value) == remSpec(e, now) / 1000000000
+//@   assert at return: result != nil ==> remSpec(e, now) > 0 && result.Id == req.Id && !result.Authoritative && (req.CheckingDisabled ==> !result.AuthenticatedData)
+//@
+//@ # ---- C04: an NXDOMAIN subtree cut lives no longer than the configured maximum, the SOA TTL and MINIMUM,
+//@ # every proof record's TTL, every covering RRSIG's original TTL and expiration, and the delegation lease
+//@ # (cutUntil) — and there is NO floor: a non-positive lifetime stores nothing
+//@ func (*nxDomainCutCache).record$1
+//@   modifies ttl
+//@   ensures ttl == ite(candidate < old(ttl), candidate, old(ttl))
+//@
+//@ pred proofWF(rs []dns.RR) := forall i int :: {rs[i]} 0 <= i && i < len(rs) ==> rs[i] != nil && (dyntype(rs[i], *dns.RRSIG) ==> as(rs[i], *dns.RRSIG) != nil) && (dyntype(rs[i], *dns.SOA) ==> as(rs[i], *dns.SOA) != nil)
+//@ spec sigUntil(sig *dns.RRSIG, now time.Time) time.Duration := int64(sig.Expiration) * 1000000000 - inst(now)
+//@
+//@ func (*nxDomainCutCache).record
+//@   nosafety all
+//@   note only the lifetime computation is claimed here; index bookkeeping (byte accounting, maps, FIFO lists) is not
+//@   assume at after call middleware/cache.nxDomainCutProof#1: result2 ==> result0 != nil && result1 != nil && proofWF(result0.Ns)
+//@   loop 1 invariant ttl <= c.maxTTL && ttl <= time.Duration(soa.Hdr.Ttl) * 1000000000 && ttl <= time.Duration(soa.Minttl) * 1000000000
+//@   loop 1 invariant forall j int :: {proof.Ns[j]} 0 <= j && j < rangeidx ==> ttl <= time.Duration(hdrOf(proof.Ns[j]).Ttl) * 1000000000
+//@   loop 1 invariant forall j int :: {proof.Ns[j]} 0 <= j && j < rangeidx && dyntype(proof.Ns[j], *dns.RRSIG) ==> ttl <= time.Duration(as(proof.Ns[j], *dns.RRSIG).OrigTtl) * 1000000000 && ttl <= sigUntil(as(proof.Ns[j], *dns.RRSIG), now)
+//@   loop 1 invariant forall j int :: {proof.Ns[j]} 0 <= j && j < rangeidx && dyntype(proof.Ns[j], *dns.SOA) ==> ttl <= time.Duration(as(proof.Ns[j], *dns.SOA).Minttl) * 1000000000
+//@   loop 1 invariant proof != nil && soa != nil && proofWF(proof.Ns) && clock(now)
+//@   assert at store cache.nxDomainCutEntry.expires#1: ttl > 0 && ttl <= c.maxTTL && ttl <= time.Duration(soa.Hdr.Ttl) * 1000000000 && ttl <= time.Duration(soa.Minttl) * 1000000000
+//@   assert at store cache.nxDomainCutEntry.expires#1: forall j int :: {proof.Ns[j]} 0 <= j && j < len(proof.Ns) ==> ttl <= time.Duration(hdrOf(proof.Ns[j]).Ttl) * 1000000000
+//@   assert at store cache.nxDomainCutEntry.expires#1: forall j int :: {proof.Ns[j]} 0 <= j && j < len(proof.Ns) && dyntype(proof.Ns[j], *dns.RRSIG) ==> ttl <= time.Duration(as(proof.Ns[j], *dns.RRSIG).OrigTtl) * 1000000000 && ttl <= sigUntil(as(proof.Ns[j], *dns.RRSIG), now)
+//@   assert at store cache.nxDomainCutEntry.expires#1: (!tzero(cutUntil) && real(cutUntil) ==> ttl <= inst(cutUntil) - inst(now)) && (ttl < 1000000000000000000 ==> inst(value) == inst(now) + ttl)
+//@   assert at store cache.nxDomainCutEntry.expires#1: old(msg.Rcode) == dns.RcodeNameError && !old(msg.CheckingDisabled)
